@@ -42,7 +42,11 @@ ASSUMPTIONS = [
 ]
 
 KEYWORDS = ["__shell__", "__inp_paths__", "__env_vars__", "__env_overrides__"]
-ATOMS = ["a", "b", "ab", "A", "_", " ", "#", "=", "/", ".", "0", "é", "\x01", "\x02", "u", "wd"]
+ATOMS = ["a", "b", "ab", "A", "_", " ", "#", "=", "/", ".", "0", "é", "\x01", "\x02", "u", "wd",
+         # canonically or compatibly equivalent, yet different strings (different bytes, different
+         # files on Linux): decomposed e-acute, a bare combining accent, the angstrom sign and the
+         # letter it normalises to, a ligature, a full-width letter
+         "e\u0301", "\u0301", "\u212b", "\u00c5", "\ufb01", "\uff41"]
 
 
 def gen_cases(tier, seed):
@@ -116,7 +120,12 @@ def mutate_str(rng, s):
         res.append(s[:i] + s[i + 1:])
         res.append(s[:i] + ("b" if s[i] != "b" else "a") + s[i + 1:])
         res.append(s[:i] + s[i].swapcase() + s[i + 1:])
-    return [r for r in res if r != s and "\0" not in r]
+    # the same text in another Unicode normal form is a different string
+    import unicodedata
+    for form in ("NFC", "NFD", "NFKC", "NFKD"):
+        res.append(unicodedata.normalize(form, s))
+    res.append(s.casefold())
+    return [r for r in dict.fromkeys(res) if r != s and "\0" not in r]
 
 
 def mutate_fh(rng, fh):
